@@ -104,7 +104,38 @@ def run(ctx):
 
 
 def known_probes(ctx):
-    pass
+    """gate construction on its own (no circuit involved): every ill-formed gate is refused by Gate(...) itself, whatever
+    the spelling of its name (names are case-insensitive); well-formed ones are accepted"""
+    from tangelo.linq import Gate
+    rng = random.Random(ctx.seed + 1711)
+    bad = [g for g in L.MALFORMED[:14]]
+    for mk in bad:
+        raw = mk(rng, 3)
+        names = [raw["n"]] if not isinstance(raw["n"], str) else [raw["n"], raw["n"].lower(), raw["n"].capitalize(), raw["n"][0].lower() + raw["n"][1:]]
+        for nm in names:
+            p = raw["p"]
+            param = "" if p is None else (p if isinstance(p, str) else vlib.ang_float(p))
+            case = {"kind": "gate_construction", "name": nm, "target": raw["t"], "control": raw["c"]}
+            ctx.count("gate_construction:ill-formed")
+            try:
+                g = Gate(nm, raw["t"], raw["c"], param, raw["v"])
+            except (ValueError, TypeError):
+                continue
+            except Exception as e:
+                ctx.violation(f"Gate({nm!r}, target={raw['t']}, control={raw['c']}) raises {type(e).__name__} instead of refusing with ValueError / TypeError", case)
+                return
+            ctx.violation(f"Gate({nm!r}, target={raw['t']}, control={raw['c']}) is ill-formed (index, duplicate, control or number of targets) but was accepted as {g}", case)
+            return
+    for nm, t, c in (("h", [0], None), ("Cnot", [1], [0]), ("swap", [0, 2], None), ("cSwap", [0, 1], [2]), ("rz", [1], None), ("crz", [1], [0, 2])):
+        ctx.count("gate_construction:well-formed")
+        try:
+            g = Gate(nm, t, c, 0.5 if "r" in nm.lower() else "")
+            ok = g.name == nm.upper() and list(g.target) == t
+        except Exception as e:
+            ok = False
+        if not ok:
+            ctx.violation(f"Gate({nm!r}, target={t}, control={c}) is well-formed but was refused or altered", {"kind": "gate_construction", "name": nm})
+            return
 
 
 def replay(ctx, obj):
